@@ -20,7 +20,8 @@ HOOK_COMMITS = ["39fa7aa verif hook: expose both index page searches (cfg pdb_ve
                 "aa461bc verif hook: route a stepping error through store_err (cfg pdb_verif)",
                 "bafdd9c verif hook: expose last enacted record id and table configuration (cfg pdb_verif)",
                 "8676b67 verif hook: read-only value table state / entry access, compress, hash_key (cfg pdb_verif)",
-                "b67f689 verif hook: index walk, raw index entries, hash_key, recover_key_prefix (cfg pdb_verif)"]
+                "b67f689 verif hook: index walk, raw index entries, hash_key, recover_key_prefix (cfg pdb_verif)",
+                "9f268a7 verif hook: named yield points at the reindex lookup and pipeline hand-over sites (cfg pdb_verif)"]
 NOT_APPLICABLE = {}
 
 PROPS = {
@@ -311,5 +312,61 @@ PROPS = {
                  "with a removal from the old index; distinct = SHA-1 of the op list; non-trivial = the journal has table writes and a log truncation"),
         "assumptions": ["A-os: file-system semantics of Pdb/Model/Dur.lean (header)", A_HASH, A_COMPRESS, P2_GAP],
         "trusted": ["libc symbol interposition in harness/src/interpose.rs (no hook in /repo)"],
+    },
+    "C05": {
+        "level_text": ("Lean theorems C05_read_linearizable / C05_snapshot_order / C05_observed_value / C05_monotone / "
+                       "C05_atomic_visibility / C05_handover / C05_shadow over an interleaving LTS whose atomic actions are the "
+                       "critical sections of the source (commit | pop | publish=end_record | cleanOverlay | flush | enactWrite "
+                       "(one location at a time) | endRead; reader: take overlay lock | overlay lookup | log-overlay lookup | table "
+                       "read | release), all action lists = all interleavings, any number of reader threads: every completed read "
+                       "of a plain-column key returns spec(first q commits) where q = commits accepted when the reader took the "
+                       "overlay read lock = commits accepted when it released it (commit needs the write lock: reads are atomic "
+                       "snapshots w.r.t. commits, concurrency is only with the workers); snapshots are ordered by completion across "
+                       "all readers; after observing transaction T every later read of a key written by T returns T's or a later "
+                       "value. Proof: refinement to the sequential pipeline model P1 (Inv on the abstraction image) + Shadow + "
+                       "per-reader invariants. Index hand-over during reindexing modelled separately: C05_F11_counterexample "
+                       "(unpatched lock placement loses a live key) / C05_index_lookup_stable (patched placement, all schedules). "
+                       "Tie to the code: threaded stress on the real Db with background workers (floor / ceiling / monotone / atomic "
+                       "visibility / never-absent oracle, index growth, tier moves), hand-over windows held open with the yield hook, "
+                       "deterministic F11 reproduction."),
+        "level_note": ("Partial by nature: the theorems are about the lock-granular LTS; mmap stores / relaxed atomics inside the "
+                       "critical sections are not modelled; schedules of the real crate are sampled. Stated for plain columns "
+                       "(rc / preimage columns weaken as in C07). Trusted: Lean kernel, hook fixes/hook-c05.diff, harness oracles."),
+        "lean": ["Pdb.Props.C05"],
+        "harness": [{"cmd": "c05", "quick": 8, "thorough": 24, "model": False, "timeout": 3000}],
+        "rule": ("cases from one SplitMix64 state, kind = seed % 4: 0|1 threaded stress (4..8 keys bumped together per transaction, "
+                 "value sizes from 16 B to 40 kB incl. multipart so entries change tier, filler thread growing one index chunk: 2..5 "
+                 "index growths per case, 4..6 readers, seeded delays at the yield points), 2 deterministic F11 (reader parked between "
+                 "the index lookups across the final reindex batch + drop), 3 hand-over windows (worker parked after end_record / "
+                 "before end_read, reads + commits + further steps in between); non-trivial = >1000 reads and >10 versions (stress), "
+                 "reader parked (F11), always (hand-over)"),
+        "assumptions": ["identity hashing (zero salt, uniform keys, instrumentation) so that one index chunk can be filled on purpose",
+                        "lock-granular atomicity of the critical sections (parking_lot lock semantics)"],
+        "trusted": ["hook lib.rs verif::{set_yield_hook, yield_point} + 4 call sites (cfg pdb_verif)"],
+    },
+    "C11": {
+        "level_text": ("Lean model of the commit queue, commit overlay, the log worker's plan / publish steps, reader locks, the log "
+                       "worker's tree write locks, to_dereference / used_trees over a logical forest with claimed addresses, in two "
+                       "variants: current code and patched (fixes/fix-c11-defer-order.diff). Current code: C11_F4_counterexample "
+                       "(whole commit re-queued behind later ones and re-published: lost update), C11_order_false, "
+                       "C11_F4_insert_counterexample (re-queued {InsertTree B, DereferenceTree C} overtaken by DereferenceTree A: B "
+                       "dangling), C11_F13_counterexample (dereference planned under the tree write lock but published after its "
+                       "release: a reader's locked tree vanishes), C11_order_partial (order kept for keys no re-queued transaction "
+                       "writes). Patched: C11_order_patched (final state = spec of all transactions in commit-return order), "
+                       "C11_locked_stable (root and every present reachable node unchanged while the lock is held, all "
+                       "interleavings), C11_released_completes. All counterexamples are replayed on the real crate."),
+        "level_note": ("'Trees inserted meanwhile that reuse its nodes stay valid' is checked by the harness and on the F4' schedule, "
+                       "not proved in general (needs the client contract + reference-count correctness, C10). Pipeline collapsed to "
+                       "queue -> planned -> published (flush / enact do not affect order or lock timing). Trusted: Lean kernel, "
+                       "harness oracles (logical forest, commit-return-order map), hook fixes/hook-c05.diff."),
+        "lean": ["Pdb.Props.C11"],
+        "harness": [{"cmd": "c11", "quick": 15, "thorough": 60, "model": False, "timeout": 3000}],
+        "rule": ("kind = seed % 5: 0 F4 exactly (1..3 later writers, 3 value sizes), 1 locked-tree stability (DereferenceTree A and "
+                 "InsertTree B sharing A's subtrees in either order, 0..2 unrelated trees, pipeline stepped under the held guard, "
+                 "entry counts), 2 insert+dereference transaction overtaken, 3 threaded reader / writer / pruner with background "
+                 "workers + watchdog + lone-postponed-commit prelude (CPU use, completion after unlock), 4 publication gap with the "
+                 "yield hook; non-trivial = shared nodes > 0 / scenario reached"),
+        "assumptions": ["clients reference existing nodes only while holding the read lock of a tree that reaches them"],
+        "trusted": ["hook lib.rs verif::{set_yield_hook, yield_point} (cfg pdb_verif)"],
     },
 }
